@@ -6,6 +6,7 @@ import (
 	"context"
 	"encoding/json"
 	"fmt"
+	"strings"
 	"testing"
 	"time"
 
@@ -138,8 +139,8 @@ func c08GenNode(r *kit.Rand, env *c08Env, name string) (*corev1.Node, *extension
 	node := &corev1.Node{ObjectMeta: metav1.ObjectMeta{Name: name}}
 	alloc := corev1.ResourceList{}
 	// power-of-two values make the float division in the percentage exact
-	cpu := kit.Pick(r, []int64{4000, 8000, 16000, 32000, 64000, 96000, 8192, 8192, 16384, 16384, 65536, 65536, 0, -1})
-	mem := kit.Pick(r, []int64{8 << 30, 16 << 30, 64 << 30, 64 << 30, 256 << 30, 100000000000, 1000 << 20, 0, -1})
+	cpu := kit.Pick(r, []int64{4000, 8000, 16000, 32000, 64000, 96000, 8192, 8192, 16384, 16384, 65536, 65536, 0, -1, 1000, 500, 256000, 1 << 20})
+	mem := kit.Pick(r, []int64{8 << 30, 16 << 30, 64 << 30, 64 << 30, 256 << 30, 100000000000, 1000 << 20, 0, -1, 1 << 30, 512 << 20, 1 << 40, 12 << 40})
 	if cpu >= 0 {
 		alloc[corev1.ResourceCPU] = c08Q(corev1.ResourceCPU, cpu)
 	}
@@ -147,7 +148,7 @@ func c08GenNode(r *kit.Rand, env *c08Env, name string) (*corev1.Node, *extension
 		alloc[corev1.ResourceMemory] = c08Q(corev1.ResourceMemory, mem)
 	}
 	if env.useR3 {
-		alloc[c08R3] = c08Q(c08R3, kit.Pick(r, []int64{0, 8, 100, 128, 128}))
+		alloc[c08R3] = c08Q(c08R3, kit.Pick(r, []int64{0, 8, 100, 128, 128, 1, 1 << 20}))
 	}
 	alloc[corev1.ResourcePods] = c08Q(corev1.ResourcePods, 110)
 	node.Status.Allocatable = alloc
@@ -188,8 +189,28 @@ func c08GenNode(r *kit.Rand, env *c08Env, name string) (*corev1.Node, *extension
 		if node.Annotations == nil {
 			node.Annotations = map[string]string{}
 		}
+		if r.Pct(10) {
+			// a threshold on a resource the plugin does not collect: nothing is reported or estimated for it
+			// (the annotation section still replaces the section of the args)
+			if custom.UsageThresholds == nil {
+				custom.UsageThresholds = map[corev1.ResourceName]int64{}
+			}
+			custom.UsageThresholds["unknown.verif.io/x"] = int64(r.Range(1, 100))
+		}
 		node.Annotations[extension.AnnotationCustomUsageThresholds] = c08JSON(custom)
-		if len(custom.UsageThresholds) == 0 && len(custom.ProdUsageThresholds) == 0 && custom.AggregatedUsage == nil {
+		switch {
+		case r.Pct(6):
+			// unparsable annotation: the configured (args) thresholds stay in force
+			node.Annotations[extension.AnnotationCustomUsageThresholds] = `{"usageThresholds": {"cpu": "a lot"`
+			custom = nil
+		case custom.AggregatedUsage != nil && r.Pct(10):
+			// aggregated section without an aggregation type is not a configuration: the section of the args stays in force
+			noType := *custom
+			noType.AggregatedUsage = &extension.CustomAggregatedUsage{UsageThresholds: custom.AggregatedUsage.UsageThresholds}
+			node.Annotations[extension.AnnotationCustomUsageThresholds] = c08JSON(&noType)
+			custom.AggregatedUsage = nil
+		}
+		if custom != nil && len(custom.UsageThresholds) == 0 && len(custom.ProdUsageThresholds) == 0 && custom.AggregatedUsage == nil {
 			custom = nil
 		}
 	}
@@ -292,7 +313,7 @@ func c08IsPow2(x int64) bool { return x > 0 && x&(x-1) == 0 }
 // ---------------------------------------------------------------------------------------------
 
 func TestVerifC08Filter(t *testing.T) {
-	kit.Run(t, kit.Config{Property: "C08", Unit: "filter", Quick: 8000, Thorough: 150000,
+	kit.Run(t, kit.Config{Property: "C08", Unit: "filter", Quick: 7000, Thorough: 150000,
 		Rule: "one node (allocatable incl. powers of two, zero/missing entries, amplified with raw-allocatable annotation, optional custom-threshold annotation), generated args (whole/prod/aggregated thresholds 0-100, scaling factors, estimation deadlines, expiry switches), 0-5 assigned pods (bound or reserved, timestamps and deadlines on/around the report boundaries) plus an optional old prod pod, one incoming pod; scenarios: daemon-set pod, no report, expired/empty report x the two switches, and threshold decisions where the free usage figure of the profile in force is set so that (existing+incoming)/allocatable lands at t-1, t, t+0.49, t+0.5, t+1 percent or anywhere; every Filter call is one evaluation; distinct = (scenario, profile class, target, outcome, #thresholded resources, expiry switches, PreFilter used); non-trivial = a case with at least one pass and one rejection among its threshold decisions",
 	}, func(c *kit.Case) {
 		r := c.R
@@ -303,7 +324,10 @@ func TestVerifC08Filter(t *testing.T) {
 		args, useR3 := c08GenArgs(r)
 		c08GenFilterArgs(r, args, useR3)
 		env := c08NewEnv(c, args, useR3, wall)
-		m := c08NewModel(env, 1, r.Range(0, 5)+1)
+		m := c08NewModel(env, 1, kit.Pick(r, []int{0, 1, 2, 3, 4, 5, 0, 1, 2, 3, 4, 5, 8, 12})+1)
+		if r.Pct(35) {
+			m.shareNames()
+		}
 		nodeName := m.nodes[0]
 		node, custom := c08GenNode(r, env, nodeName)
 		ni := framework.NewNodeInfo()
@@ -328,6 +352,18 @@ func TestVerifC08Filter(t *testing.T) {
 			}
 		}
 		alloc := c08Vec(env.vec, allocList)
+		if a, ok := node.Annotations[extension.AnnotationCustomUsageThresholds]; ok {
+			switch {
+			case strings.Contains(a, "a lot"):
+				c.Count("node_annotation_unparsable", 1)
+			case strings.Contains(a, "unknown.verif.io/x"):
+				c.Count("node_annotation_threshold_on_uncollected_resource", 1)
+			case strings.Contains(a, "aggregatedUsage") && !strings.Contains(a, "usageAggregationType"):
+				c.Count("node_annotation_aggregated_without_type", 1)
+			default:
+				c.Count("node_annotation_custom_thresholds", 1)
+			}
+		}
 		c.Op("args: %s", env.argsString())
 		c.Op("node: allocatable=%s annotations=%v => allocatable used %v", c08ListStr(node.Status.Allocatable), node.Annotations, alloc)
 
